@@ -112,3 +112,8 @@ package threshold
 //@     assert [source]  hf == msg.Source && typeIs(hm, "*rbcMsg")
 //@     assert [triple]  dyn(hm, "*rbcMsg").sender == sender && dyn(hm, "*rbcMsg").round == round && dyn(hm, "*rbcMsg").digest == digest
 //@     assert [is-ack]  len(dyn(hm, "*rbcMsg").payload) == 0
+
+//@ func (*receiver).Receive
+//@   props C02 C03 C10
+//@   ghost-param now int
+//@   requires m != nil && from != r.Receiver.SelfID && from in r.Receiver.P && now > r.Receiver.gNow
